@@ -174,7 +174,7 @@ var allKinds = []string{"v1u", "v1o", "v2a", "v2", "loc", "loco", "v1x", "v1h", 
 
 // denomGrammar: native denominations of the token worlds. SDK denom alphabet, 1-4 '/'-separated
 // segments, segments shaped like ports, channel ids, client ids, "ibc", hashes.
-var denomGrammar = []string{"uatom", "a/b/foo", "gamm/pool/1", "transfer/channel-7/foo", "transfer/channel-0/bar", "factory/cosmos1abc/sub", "ibcx", "x/07-tendermint-0/y", "transfer/baz", "channel-0/qux"}
+var denomGrammar = []string{"uatom", "a/b/foo", "gamm/pool/1", "transfer/channel-7/foo", "transfer/channel-0/bar", "factory/cosmos1abc/sub", "ibcx", "x/07-tendermint-0/y", "transfer/baz", "channel-0/qux", "qux/channel-1", "pool/07-tendermint-0"}
 
 func tokenOptions(o *CoreOptions, r *rand.Rand) {
 	o.Tokens = true
